@@ -352,16 +352,24 @@ fn run_history(cfg: &Cfg, seed: u64) -> Option<Outcome> {
     // optional deregistration mid-stream. Items the pipe's producer had ALREADY been told were accepted when
     // deregister_pipe() is called are queued for the receiver like any others and must still be popped; what the
     // producer pushes concurrently with / after the call stays open.
+    // (the flag says "the history is over": set by the main loop under the same lock, so that a deregistration task
+    // that was starved of CPU cannot fire after the verdict loop has ended and add survivors nobody will pop any more)
+    let history_over: Arc<parking_lot::Mutex<bool>> = Default::default();
     let must_survive: Arc<parking_lot::Mutex<Option<Vec<Item>>>> = Default::default();
     if let Some(p) = cfg.deregister_pipe {
       let q2 = q.clone();
       let popped2 = popped.clone();
       let pushed2 = pushed.clone();
       let must2 = must_survive.clone();
+      let over2 = history_over.clone();
       let half = (cfg.items / 2) as usize;
       tokio::spawn(async move {
         loop {
           if popped2.lock().iter().filter(|i| i.0 == p).count() >= half.max(1) {
+            let over = over2.lock();
+            if *over {
+              return;
+            }
             let before: Vec<Item> = pushed2.lock().iter().filter(|i| i.0 == p).copied().collect();
             q2.deregister_pipe(p);
             *must2.lock() = Some(before);
@@ -389,7 +397,20 @@ fn run_history(cfg: &Cfg, seed: u64) -> Option<Outcome> {
         None => cfg.deregister_pipe.is_none() || all_done, // deregistration not reached yet: wait for it unless everything else is over
       };
       if all_done && npopped >= npushed && survivors_popped {
-        break;
+        // end of history, unless the deregistration slipped in since `survivors_popped` was computed
+        let mut over = history_over.lock();
+        let still_ok = match &*must_survive.lock() {
+          Some(m) => {
+            let pp = popped.lock();
+            m.iter().all(|it| pp.contains(it))
+          }
+          None => true,
+        };
+        if still_ok {
+          *over = true;
+          break;
+        }
+        continue;
       }
       let idle = last_progress.lock().elapsed();
       if idle > util::scaled(Duration::from_millis(1500)) && t0.elapsed() > util::scaled(Duration::from_millis(1600)) {
@@ -412,6 +433,7 @@ fn run_history(cfg: &Cfg, seed: u64) -> Option<Outcome> {
           *last_progress.lock() = Instant::now();
           continue;
         }
+        *history_over.lock() = true;
         stuck = Some(format!("no progress for {:?} (confirmed over a further 20 s without any push, pop or producer exit): producers done {}/{}, pushed {}, popped {} (deregistered pipe excluded)", idle + t1.elapsed(), producers_done.load(Ordering::SeqCst), need_done, npushed, npopped));
         break;
       }
@@ -446,14 +468,6 @@ fn check_history(rep: &mut Report, cfg: &Cfg, seed: u64, o: &Outcome) {
   }
   let wit = |o: &Outcome| json!({"config": cfgs, "seed": seed, "pushed": o.pushed.len(), "popped": o.popped.len(), "ready_len": o.ready_len, "slots": o.slots.iter().map(|s| format!("pipe{} chan={} queued={} reserved={}", s.pipe_id, s.channel_len, s.queued_count, s.reserved_count)).collect::<Vec<_>>()});
   let lost_survivors: Vec<&Item> = o.must_survive.iter().filter(|it| !o.popped.contains(it)).collect();
-  if !lost_survivors.is_empty() && matches!(cfg.via, Via::Msg(PipeKind::FilteredAnonymous)) {
-    // Seen twice (one quick run at seed 3 on a machine oversubscribed ~4x, never at seeds 1/2 nor on a quiet machine):
-    // one item of the deregistered pipe missing with the filtered sender kind. Neither reproduced nor explained, and the
-    // filtered kind's hand-inlined batch path arms the ready list only after the whole batch - the oracle's soundness
-    // for this kind under deregistration is in doubt, so it is reported without a verdict.
-    rep.inconclusive(format!("filtered sender kind: {} item(s) accepted before deregister_pipe() were not popped (first {:?}) [{}]", lost_survivors.len(), lost_survivors[0], sigcfg));
-    return;
-  }
   if !lost_survivors.is_empty() {
     rep.violation(format!("items_queued_before_deregistration_lost|{}", sigcfg), format!("{} item(s) that pipe {} had accepted before deregister_pipe() was called were never popped (first {:?}); {}", lost_survivors.len(), cfg.deregister_pipe.unwrap_or(0), lost_survivors[0], o.stuck.clone().unwrap_or_default()), wit(o));
     return;
